@@ -31,7 +31,7 @@ def kw_split(res, con):
     return res.params[pname], list(values)
 
 
-def run_isolated(rep, name, model, ob, timeout=120):
+def run_isolated(rep, name, model, ob, timeout=120, crash_is_failure=True):
     """native replays run in a forked child: a crash of the real code must not take the checker down."""
     import multiprocessing as mp
     ctx = mp.get_context('fork')
@@ -59,6 +59,8 @@ def run_isolated(rep, name, model, ob, timeout=120):
     if p.is_alive():
         p.kill()
         return {'reproduced': False, 'error': 'native replay timed out'}
+    if r is None and not crash_is_failure:
+        return {'reproduced': False, 'error': 'native run crashed (exit code %s)' % p.exitcode}
     if r is None:
         return {'reproduced': True, 'native_crash': 'the real function crashed on the solver input (exit code %s)' % p.exitcode}
     return r
@@ -211,6 +213,21 @@ class Check:
                     violations.append((name, model, ob, backend, reason))
             else:
                 unknowns.append((name, reason))
+        # obligations the solvers leave open (typically quantified ones that no longer hold: "unknown", not "sat"):
+        # the property module may supply a native contract run of the real code; a failure it finds is a violation
+        # with a replayed input, and it then also explains the open obligations
+        fb = getattr(self, 'native_fallback', None)
+        self.fallback_info = None
+        if fb and (unknowns or self.undecided) and not violations:
+            try:
+                info = run_isolated(lambda n, m, o: fb([u[0] for u in unknowns]), '', None, None, timeout=600, crash_is_failure=False)
+            except Exception as e:   # noqa
+                info = {'reproduced': False, 'error': repr(e)}
+            self.fallback_info = info
+            if info and info.get('reproduced'):
+                violations.append(('native-contract-run/' + info.get('name', 'failure'), info, None, 'native-contract-run',
+                                   'open obligations: ' + ', '.join(u[0] for u in unknowns)[:400]))
+                self._fallback_replay = info
         if not samples:
             for (name, kind, status, backend, t, model, reason, ob) in rows[:4]:
                 samples.append({'obligation': name, 'backend': backend, 'status': status})
@@ -224,6 +241,8 @@ class Check:
         for gname, members in groups.items():
             rp = os.path.join(REPLAY, '%s_%s.json' % (pid, re.sub(r'[^A-Za-z0-9_.#@-]', '_', gname)))
             replayed, used = None, members[0]
+            if members[0][3] == 'native-contract-run':
+                replayed = members[0][1]
             for (name, model, ob, backend, reason) in members[:4]:
                 rep = ob.meta.get('replayer') if ob is not None else None
                 if not rep:
